@@ -232,6 +232,9 @@ func Bubble(t *testing.T, c *choice.Stream, r *Result, opt RunOpt, setup func(e 
 			case sched.Budget:
 				r.Harness("decision budget exhausted after %d steps; parked: %v", sim.Step, sim.Parked())
 			}
+			if out == sched.Done {
+				sim.Quiesce(5000)
+			}
 			if e.After != nil {
 				e.After(out)
 			}
